@@ -29,16 +29,9 @@ func reversedBundleFor(reg *template.Registry) *identityBundle {
 	b := &identityBundle{msgs: map[uint64]*soymsg.Message{}}
 	for _, t := range reg.Templates {
 		collectMsgs(t.Node, func(m *ast.MsgNode) {
-			for _, ch := range m.Body.Children() {
-				if _, ok := ch.(*ast.MsgPluralNode); ok {
-					return
-				}
+			if msg := translatedMessage(m, reversePH); msg != nil {
+				b.msgs[m.ID] = msg
 			}
-			msg := soymsg.NewMessage(m.ID, soymsg.PlaceholderString(m))
-			for i, j := 0, len(msg.Parts)-1; i < j; i, j = i+1, j-1 {
-				msg.Parts[i], msg.Parts[j] = msg.Parts[j], msg.Parts[i]
-			}
-			b.msgs[m.ID] = msg
 		})
 	}
 	return b
